@@ -116,6 +116,15 @@ func FinishCase(prop *SimProp, w *World, known *KnownFindings) CaseResult {
 		res.Inconcl = w.Failed
 	}
 	sort.SliceStable(res.Violations, func(i, j int) bool { return res.Violations[i].Step < res.Violations[j].Step })
+	// a stall is reported first: what the monitors saw before it is its consequence,
+	// and the driver replays a stall (which waits out a timeout) without repetitions
+	for i, v := range res.Violations {
+		if v.Class == "deadlock" && i > 0 {
+			copy(res.Violations[1:i+1], res.Violations[:i])
+			res.Violations[0] = v
+			break
+		}
+	}
 	return res
 }
 
